@@ -174,6 +174,7 @@ class SessionManager(GrantManager):
             sub_type: Optional[str] = "public",
             token_usage_rules: Optional[dict] = None,
             scopes: Optional[list] = None,
+            sector_identifier: Optional[str] = "",
     ) -> str:
         """
 
@@ -184,15 +185,17 @@ class SessionManager(GrantManager):
         :param client_id:
         :param sub_type:
         :param token_usage_rules:
+        :param sector_identifier: The client's sector identifier (used for pairwise subjects)
         :return:
         """
+        _sector_identifier = sector_identifier
         if auth_req:
-            sector_identifier = auth_req.get("sector_identifier_uri", "")
+            sector_identifier = _sector_identifier or auth_req.get("sector_identifier_uri", "")
             _claims = auth_req.get("claims", {})
             if scopes is None:
                 scopes = auth_req.get("scope")
         else:
-            sector_identifier = ""
+            sector_identifier = _sector_identifier or ""
             _claims = {}
 
         resources = []
@@ -261,6 +264,7 @@ class SessionManager(GrantManager):
             sub_type: Optional[str] = "public",
             token_usage_rules: Optional[dict] = None,
             scopes: Optional[list] = None,
+            sector_identifier: Optional[str] = "",
     ) -> str:
         """
         Create part of a user session. The parts added are user- and client
@@ -284,6 +288,7 @@ class SessionManager(GrantManager):
             sub_type=sub_type,
             token_usage_rules=token_usage_rules,
             scopes=scopes,
+            sector_identifier=sector_identifier,
         )
 
     def create_exchange_session(
